@@ -242,9 +242,6 @@ Section Cross.
     exists j, user_id d = Some j /\ In j (lids_item i).
   Proof.
     destruct cross_all as [_ [_ HLi]]. intros i ve fe id d Hb Hf Hin L.
-    assert (Hv : locals_from [] (fun x => match ve x with LFound d => if is_local_def d then LNone else LFound d | r => r end)).
-    { intros x d0 E L0. destruct (ve x) as [d1|d1|]; try discriminate. destruct (is_local_def d1) eqn:L1; [discriminate|]. inversion E; subst. congruence. }
-    (* the item only ever looks at [hide ve]; use the general lemma with S := all ids reachable through ve *)
     destruct i as [vars|q f ps body|q f ps|b|us]; try discriminate.
     - rewrite si_const in Hin. apply in_flat_map in Hin as [v [_ Hin]].
       destruct (uses_local [] (hide ve) fe None (snd v) id d (locals_from_hide _ _) Hf Hin L) as [j [_ []]].
